@@ -34,6 +34,9 @@ META = {
             "kernel; extraction + OCaml driver; harness/c01_impl.cpp (send/recv interposition, barrier connections).",
 }
 
+# ---- additions of the translator / tie session (appended to the manifest texts)
+META["text"] += " Theorem tcp_epollout_armed_iff_queued (C01/Interest.v): for every history the last epoll registration of an open session asks for EPOLLOUT exactly while bytes are queued (no lost re-arm, no spinning on an empty queue); the harness observes the real registration (epoll_ctl interposed) after every operation."
+
 
 def hx(b):
     return bytes(b).hex() if b else "-"
